@@ -20,7 +20,8 @@ def RowsRaised (pol : Policy) : List Row → List Row → Prop
 theorem eligible_conf (pol : Policy) (now : Nat) (r : Row) (c' : Int) :
     eligible pol now { r with conf := c' } =
       (eligible pol now r).map (fun c => { c with conf := effConf pol c' }) := by
-  unfold eligible effConf
+  rw [eligible_eq_spec, eligible_eq_spec]
+  unfold eligibleSpec effConf
   simp only
   repeat' split
   all_goals simp_all [Except.map]
@@ -43,7 +44,8 @@ theorem candOf_raised {pol : Policy} {now : Nat} {r r' : Row} (h : RowRaised pol
       rw [he] at hc
       have : c0 = c := by simpa using hc
       subst this
-      unfold eligible at he
+      rw [eligible_eq_spec] at he
+      unfold eligibleSpec at he
       repeat' split at he
       all_goals cases he
       all_goals simp [effConf, *]
